@@ -337,6 +337,17 @@ impl KeyValueStore {
     }
 
     pub fn write(&self, mut batch: WriteBatch) -> Result<(), SError> {
+        // Every entry of a batch gets the same timestamp, so a key may appear only once: keep the
+        // last write to each key.  (Two entries with one key and one timestamp panic in the
+        // memtable after the batch is already in the log, and the log then fails to replay.)
+        let mut seen = std::collections::HashSet::new();
+        let mut keep = vec![false; batch.entries.len()];
+        for (idx, entry) in batch.entries.iter().enumerate().rev() {
+            keep[idx] = seen.insert(entry.key.as_slice());
+        }
+        drop(seen);
+        let mut keep = keep.into_iter();
+        batch.entries.retain(|_| keep.next().unwrap_or(true));
         let (mut wait_guard, memtable, log) = {
             let mut state = self.state.lock().unwrap();
             let wait_guard = self.wait_list.link(());
